@@ -117,7 +117,7 @@ def run(R, tier):
                 ok = ps and all(sum(1 for n in p.call_names if n.endswith("Node::exec")) >= 1 for p in ps)
                 R.check(ok, "R06.3", key, "`;` starts the next unit", "after `;` the next unit must start: %s" % desc)
             elif post == M.END:
-                ok = ps and all(p.outcome in ("Ok",) or any(e.kind == "assume" and "message_end" in repr(e.args[0]) for e in p.trace) for p in ps)
+                ok = ps and all(p.outcome in ("Ok", "ret:message_end") or any(e.kind == "assume" and "message_end" in repr(e.args[0]) for e in p.trace) for p in ps)
                 R.check(ok, "R06.3", key, "end of message: success", "end of input after a unit must end the message successfully: %s" % desc)
             elif post == "ERR":
                 ok = ps and all(p.outcome == "Err(<lexer-error>)" for p in ps)
